@@ -3,3 +3,5 @@
    model; the names "forloop", "Counter", ... are byte literals in Model/Exec.v and are
    compared with the spec's own literals by the proofs themselves. *)
 From PV Require Export Proofs.Flow.
+
+From PV Require Export Tie.E2.
